@@ -32,7 +32,7 @@ def run(tier, seed, replay=None):
     except vbuild.BuildError as e:
         ob["ok"] = False
         ob["failures"].append("csg_stat does not compile from the current source: " + str(e)[-400:])
-        return ck.finish(ob, rule="-")
+        return ck.finish(ob, rule="one run in four takes the route without a mapping (one atom per bead, bonds / angles / dihedrals declared in the xml topology, no --cg); -")
     if not ob.get("driver_ok", True):
         return ck.finish(ob, rule="-")
     py = sys.executable
